@@ -18,7 +18,7 @@ import vlib
 LEVEL = "model_checking"
 # grid sizes must match NA/NL/NS/NK of specs/Selector_lat(q).cfg and Trace_Selector(_q).cfg
 GRID_Q = {"a": ["0.5", "0.9", "1"], "l": ["100", "1", "0.01"], "s": ["5000", "60", "0"], "k": [0, 50]}
-GRID_T = {"a": ["0.5", "0.85", "0.95", "1"], "l": ["100", "10", "1", "0.1", "0"], "s": ["5000", "300", "10", "0"], "k": [0, 10, 200]}
+GRID_T = {"a": ["0.5", "0.9", "1"], "l": ["100", "10", "1", "0.01"], "s": ["5000", "60", "0"], "k": [0, 50]}
 SIGS = {"invariant:ConfFilter": "candidates-kept-differ-from-all-minus-ignored-minus-nodata",
         "invariant:ConfInterval": "pick-violates-interval-rule",
         "invariant:ConfDraw": "reported-RNGValue-is-not-u-times-total",
